@@ -35,18 +35,71 @@ def outJson (o : Out) : Json :=
 
 /-! ### c16.expiration -/
 
+/-- the frame of the decision (see `ExpFrame`): every other duration / instant / flag the harness put on the
+    NodeClaim, its NodePool, its Node. All fields are optional in the input. -/
+def parseExpFrame (inp : Json) : Except String ExpFrame := do
+  let tgp ← intO inp "tgp"
+  let poolPresent := (← strO inp "pool") == some "present"
+  let mut durations : List (String × Int) := []
+  let mut instants : List (String × Int) := []
+  let mut flags : List String := []
+  if poolPresent then
+    flags := flags ++ ["nodepool present"]
+    match ← intO inp "poolExpireAfter" with
+    | some d => durations := durations ++ [("nodepool.expireAfter", d)]
+    | none => flags := flags ++ ["nodepool.expireAfter = Never"]
+    match ← intO inp "poolTgp" with
+    | some d => durations := durations ++ [("nodepool.terminationGracePeriod", d)]
+    | none => pure ()
+  for c in ← arrD inp "conds" do
+    instants := instants ++ [(s!"condition {← strF c "type"} ({← strF c "status"}) transition", ← intF c "at")]
+  match ← intO inp "termAnnotSec" with
+  | some t => instants := instants ++ [("termination-timestamp annotation", t * 1000000000)]
+  | none => pure ()
+  match ← intO inp "lastPodEvent" with
+  | some t => instants := instants ++ [("status.lastPodEventTime", t)]
+  | none => pure ()
+  match ← strO inp "node" with
+  | some "" | none => pure ()
+  | some m =>
+    flags := flags ++ [s!"node {m}"]
+    match ← intO inp "nodeCreated" with
+    | some t => instants := instants ++ [("Node creation", t)]
+    | none => pure ()
+  if ← boolD inp "doNotDisrupt" false then flags := flags ++ ["do-not-disrupt"]
+  match ← natO inp "pods" with
+  | some (n + 1) => flags := flags ++ [s!"{n + 1} pods"]
+  | _ => pure ()
+  pure { terminationGracePeriod := tgp, durations, instants, flags }
+
+/-- diagnostics for an early Delete: which instants derived from the frame had the clock already reached?
+    (`creation + expireAfter − x`, `creation + x` for a duration `x`; `t`, `t + expireAfter − …` make no sense
+    for instants later than creation, so for an instant `t` just `t` itself.) -/
+def reachedFrameInstants (i : ExpIn) (d : Int) : List String :=
+  let durs := (match i.frame.terminationGracePeriod with
+    | some g => [("terminationGracePeriod", g)] | none => []) ++ i.frame.durations
+  (durs.filterMap (fun (n, g) =>
+      if i.created + d - g ≤ i.now then some s!"creation + expireAfter - {n} ({n} = {g} ns)" else none)) ++
+  (durs.filterMap (fun (n, g) =>
+      if i.created + g ≤ i.now then some s!"creation + {n} ({n} = {g} ns)" else none)) ++
+  (i.frame.instants.filterMap (fun (n, t) => if t ≤ i.now then some s!"{n}" else none))
+
 def expirationOp (inp impl : Json) : Except String Resp := do
   let i : ExpIn := {
     managed := ← boolF inp "managed", deleting := ← boolF inp "deleting",
     expireAfter := ← intO inp "expireAfter", created := ← intF inp "created", now := ← intF inp "now",
-    deleteFault := ← faultD inp "deleteFault" }
+    deleteFault := ← faultD inp "deleteFault", frame := ← parseExpFrame inp }
   let m := expiration i
   let deletes ← natF impl "deletes"
   let ok := deletes == 0 || expirationMayDelete i.expireAfter i.created i.now
   let why := if ok then "" else
     match i.expireAfter with
     | none => "expiration issued a Delete although expiry is disabled (expireAfter = Never)"
-    | some d => s!"expiration issued a Delete {i.created + d - i.now} ns before creation + expireAfter"
+    | some d =>
+      s!"expiration issued a Delete {i.created + d - i.now} ns before creation + expireAfter (expireAfter = {d} ns, clock at creation + {i.now - i.created} ns)" ++
+      (match reachedFrameInstants i d with
+       | [] => ""
+       | l => "; nothing but creation + expireAfter may trigger it - the clock had only reached: " ++ "; ".intercalate l)
   pure { model := some (outJson m), spec := some ok, why := why }
 
 /-! ### c16.gc, c16.gc_lookup -/
